@@ -215,6 +215,7 @@ def check_C19(ctx):
         "rune classes are those of package unicode (IsLower/IsUpper/IsDigit), as the scanner's documentation states",
         "exhaustive over class strings up to the bound only; beyond it seeded random exploration",
         "word boundaries are not prescribed by C19: disagreement with the scanner model is reported as drift only",
+        "one round of 12 goroutines calls the converters concurrently on ten inputs: a pure function's answers must not depend on concurrent callers",
     ], fails)
 
 
@@ -345,7 +346,7 @@ def check_C03(ctx):
 def genfile_family(ctx, only=None):
     """The genfile family (C01 and the written-file side of C03): returns failures restricted to `only`."""
     t = ctx.tier
-    res = run_family(ctx, "genfile", "GenFile", ["GenFile_gen_%s.cfg" % t, "GenFile_gen_%s2.cfg" % t], "GenFileTrace",
+    res = run_family(ctx, "genfile", "GenFile", ["GenFile_gen_%s.cfg" % t, "GenFile_gen_%s2.cfg" % t, "GenFile_gen_%s3.cfg" % t], "GenFileTrace",
                      rand_n=150 if ctx.quick() else 3000, a_cfgs=["GenFile_A.cfg"] if only == "C01" else [], shard=3000, exec_timeout=7200)
     fails = vlib.collect_failures(res["trace"], res["bad"], "genfile", only_prefix=only)
     return {"fails": fails, "lines": len(res["trace"]), "trace": res["trace"], "n_cases": res["n_cases"]}
@@ -370,7 +371,7 @@ def check_C01(ctx):
     }
     return vlib.finish(ctx, "model_checking", cov, [
         "go/parser, go/format, mvdan.cc/gofumpt v0.8.0 (the version in gengo's go.mod) and `go build` are the oracles the statement itself names; they are not modelled",
-        "'altered only by formatting' = the file and the rendered text have the same sequence of top-level specs, each with the same token sequence (grouping of adjacent declarations, white space and semicolons ignored), and the same non-empty comment lines; fragments contain no legacy octal literals, which gofumpt rewrites",
+        "'altered only by formatting' = the file and the rendered text have the same sequence of top-level specs, each with the same token sequence (grouping of adjacent declarations, white space and semicolons ignored), and the same non-empty comment lines; integer literals are compared by value (gofumpt respells legacy octal literals)",
         "every fragment is syntactically valid Go on its own (or together with the other half of a split declaration)",
     ], gf["fails"])
 
